@@ -91,8 +91,7 @@ func VerifMsgInfo(m RedisMessage) VerifMsg {
 	return r
 }
 
-// VerifSetExpireAt / VerifRelativePTTL expose the expiry field arithmetic of message.go.
-func VerifSetExpireAt(m *RedisMessage, pxat int64)         { m.setExpireAt(pxat) }
+// VerifRelativePTTL exposes the expiry field arithmetic of message.go (VerifSetExpireAt is in verif_export_resp.go).
 func VerifRelativePTTL(m RedisMessage, now time.Time) int64 { return m.relativePTTL(now) }
 
 // VerifCacheable builds the cacheable command whose cache identity is (key, name).
